@@ -3107,7 +3107,9 @@ class Set(Collection):
             if removed: (to_add, setdata.removed) = (to_add - removed, removed - to_add)
             if added: added |= to_add
             else: setdata.added = to_add  # added may be None
-        if to_remove:
+        if to_remove and reverse.is_collection:
+            # for one-to-many, Set.reverse_remove() (called through each item's reference) has already
+            # moved the removed items between the pending added/removed sets
             if added: (to_remove, setdata.added) = (to_remove - added, added - to_remove)
             if removed: removed |= to_remove
             else: setdata.removed = to_remove  # removed may be None
